@@ -252,6 +252,9 @@ func (e *Engine) intrinsic(st *State, fr *Frame, fn *ssa.Function, args []Value,
 		return retExit(st, e.bv64(int64(len(st.parked)))), true
 	case "verifB":
 		return retExit(st, c.Ite(args[0].(*Term), e.bv64(1), e.bv64(0))), true
+	case "verifInterpret":
+		e.summaries["interpret:"+concreteString(args[0], name)] = true
+		return retExit(st, nil), true
 	case "verifUseSummary":
 		e.summaries[concreteString(args[0], name)] = true
 		return retExit(st, nil), true
